@@ -159,6 +159,8 @@ class Case:
         self.current_pattern = "<applier>"
         self.api_calls = 0
         self.flag_explained = False
+        self.hook_reported_change = 0
+        self.hook_untruthful = 0
 
     def number(self, op):
         i = id(op)
@@ -544,7 +546,7 @@ INERT = ["x", "x", "p"]
 
 
 # ------------------------------------------------------------------------------------------------ generator
-def gen_block(rng, depth, outer_vals, nops, kinds, maxdepth, with_arith):
+def gen_block(rng, depth, outer_vals, nops, kinds, maxdepth, with_arith, multi_p=0.0):
     b = Block(arg_types=[i32] * (rng.choice([0, 0, 1, 2, 3]) if depth else 0))
     vals = list(outer_vals) + list(b.args)
     for _ in range(nops):
@@ -569,8 +571,9 @@ def gen_block(rng, depth, outer_vals, nops, kinds, maxdepth, with_arith):
                 opnds = [rng.choice(adefs)] + opnds[1:]
         regions = []
         if (k in REGION_KINDS or rng.random() < (0.5 if k == "x" else 0.15)) and depth < maxdepth:
-            nblocks = 2 if (k in ("ir", "mv", "cb", "x") and rng.random() < 0.3) else 1
-            regions = [Region([gen_block(rng, depth + 1, vals, rng.choice([0, 1, 2, 4]), kinds, maxdepth, with_arith)
+            nblocks = 2 if ((k in ("ir", "mv", "cb", "x") and rng.random() < 0.3) or rng.random() < multi_p) else 1
+            regions = [Region([gen_block(rng, depth + 1, vals, rng.choice([0, 1, 2, 4]), kinds, maxdepth, with_arith,
+                                         multi_p)
                                for _ in range(nblocks)])]
         nres = 2 if k in ("u", "w", "n") else rng.choice([0, 1, 1, 2])
         if k in ("r", "ir") or (k == "x" and regions and rng.random() < 0.6):
@@ -599,6 +602,10 @@ WALK_CFGS = [dict(walk_reverse=a, walk_regions_first=b, apply_recursively=c)
              for a in (False, True) for b in (False, True) for c in (True, False)]
 MODES = ["bare", "applier", "applier+dce", "applier+fold", "applier+dce+fold"]
 PERTURB = [0.0, 0.3, 1.0]
+# post_walk_func configurations: none / the region DCE canonicalize uses / a mutating test hook that erases unused "hd"
+# ops through the listener it is handed and reports True / a hook that does nothing and reports False.
+HOOKS = ["none", "region_dce", "erase_marked", "noop"]
+HOOK_OF = ["none"] * 4 + ["region_dce"] * 3 + ["erase_marked"] * 2 + ["noop"] * 2   # indexed by seed % 11 (coprime to 120)
 SIZES = {"quick": dict(nops=[3, 6, 10, 16], maxdepth=2), "thorough": dict(nops=[4, 8, 14, 22, 30], maxdepth=3)}
 
 
@@ -609,18 +616,39 @@ def gen_case(seed, size):
     cfg = dict(WALK_CFGS[k % 8])
     cfg["mode"] = MODES[(k // 8) % 5]
     cfg["perturb"] = PERTURB[(k // 40) % 3]
+    cfg["hook"] = hook = HOOK_OF[seed % 11]
     sz = SIZES[size]
     if cfg["mode"] == "bare":
         names = [rng.choice(PATTERNS).__name__]
     else:
         names = [p.__name__ for p in rng.sample(PATTERNS, rng.randint(2, len(PATTERNS)))]
+    if hook == "region_dce":
+        # region DCE deletes the empty unreachable block CreateBlockOnly creates, which re-enables the pattern: the
+        # combination would not terminate (CreateBlock is level-bounded and stays)
+        names = [n for n in names if n != "CreateBlockOnly"] or ["EraseDead"]
+    hrng = random.Random(seed * 31 + 7)
+    if hook != "none" and hrng.random() < 0.45:
+        names = []  # no pattern ever fires: every IR change of the run is made by the post-walk hook
+    cfg["inert_patterns"] = not names
     # bias the op kinds towards the chosen patterns so that they find work
     kinds = [KIND_OF[n] for n in names] * 3 + list(KIND_OF.values()) + INERT + ["dead", "a", "a", "uu"]
+    if hook == "erase_marked":
+        kinds += ["hd"] * 4
+    if hook == "region_dce":
+        kinds += ["p"] * 4
     with_arith = "fold" in cfg["mode"] or rng.random() < 0.3
-    body = gen_block(rng, 0, [], rng.choice(sz["nops"]), kinds, sz["maxdepth"], with_arith)
+    body = gen_block(rng, 0, [], rng.choice(sz["nops"]), kinds, sz["maxdepth"], with_arith,
+                     multi_p=0.4 if hook == "region_dce" else 0.0)
     ops = list(body.ops)
     for o in ops:
         o.detach()
+    if hook == "region_dce" and hrng.random() < 0.7:
+        # work only region DCE can do: an unreachable block holding side-effecting ops, and an unused pure op
+        ops.append(mk("x", (), 0, 0, [Region([Block([mk("x", (), 0, 0)]), Block([mk("x", (), 1, 0), mk("x", (), 0, 0)])])]))
+        ops.append(mk("p", (), 1, 0, pure=True))
+    if hook == "erase_marked" and hrng.random() < 0.7:
+        ops.append(mk("x", (), 0, 0, [Region([Block([mk("hd", (), 1, 0)])])]))
+        ops.append(mk("hd", (), 2, 0))
     module = ModuleOp(ops)
     return module, names, cfg, random.Random(seed * 7919 + 13)
 
@@ -775,10 +803,78 @@ class Named(RewritePattern):
                 self.c.stats["acted:" + type(self.p).__name__] += 1
 
 
+class NeverMatches(RewritePattern):
+    def match_and_rewrite(self, op, rw):
+        return
+
+
+def erase_marked(region, listener):
+    """Mutating test hook: erases unused ops tagged "hd", reporting each removal through the listener it was handed."""
+    from xdsl.rewriter import Rewriter
+    n = 0
+    while True:
+        dead = [o for o in region.walk() if kind(o) == "hd" and unused(o) and not o.regions]
+        if not dead:
+            return n > 0
+        for o in dead:
+            listener.handle_operation_removal(o)
+            Rewriter.erase_op(o)
+            n += 1
+
+
+def noop_hook(region, listener):
+    return False
+
+
+def base_hook(name):
+    if name == "region_dce":
+        from xdsl.transforms.dead_code_elimination import region_dce
+        return region_dce
+    return {"erase_marked": erase_marked, "noop": noop_hook, "none": None}[name]
+
+
+def make_hook(c: Case, name):
+    """The hook handed to the walker, wrapped so that each call leaves a record (did the IR change, what was reported,
+    which removals reached the registered user listener)."""
+    base = base_hook(name)
+    if base is None:
+        return None
+
+    def hook(region, listener):
+        before = Snap(region)
+        c0 = canon_ir(c.module)
+        e0 = len(c.events)
+        r = base(region, listener)
+        after = Snap(region)
+        changed = c0 != canon_ir(c.module) or before.ident != after.ident
+        c.stats["hook_calls"] += 1
+        if changed:
+            c.stats["hook_calls_mutating"] += 1
+            c.stats["hook_ops_removed"] += sum(1 for i in before.ops if i not in after.ops)
+            c.stats["hook_blocks_removed"] += sum(1 for i in before.blocks if i not in after.blocks)
+        if r and changed:
+            c.hook_reported_change += 1
+        if changed and not r:
+            c.hook_untruthful += 1
+            c.stats["hook_changed_ir_but_returned_false"] += 1
+        if r and not changed:
+            c.stats["hook_returned_true_without_change"] += 1
+        if name == "erase_marked":
+            rem = {id(o) for k, o, _x in c.events[e0:] if k == "rem"}
+            gone = [s.op for i, s in before.ops.items() if i not in after.ops]
+            if any(id(o) not in rem for o in gone):
+                c.violate("post_walk_func:listener-does-not-reach-registered-listener",
+                          "removals the post-walk hook reported through the listener it was handed did not reach the "
+                          "listener registered on the walker")
+        return r
+
+    return hook
+
+
 def build_inner(c: Case, names, mode):
     pats = [Named(c, PATTERN_BY_NAME[n](c)) for n in names]
     if mode == "bare":
-        return pats[0]
+        return pats[0] if pats else NeverMatches()
     kw = dict(dce_enabled="dce" in mode)
     if "fold" in mode:
         ctx = Context()
@@ -842,7 +938,7 @@ def run_case(seed, size, want_text=False):
                                        block_creation_handler=[on_blk])
     walker = PatternRewriteWalker(Mon(c, inner), walk_regions_first=cfg["walk_regions_first"],
                                   apply_recursively=cfg["apply_recursively"], walk_reverse=cfg["walk_reverse"],
-                                  listener=listener)
+                                  post_walk_func=make_hook(c, cfg["hook"]), listener=listener)
     wl = PerturbedWorklist(wrng, cfg["perturb"], c)
     walker._worklist = wl
     c.monitoring = True
@@ -881,8 +977,19 @@ def run_case(seed, size, want_text=False):
     canon_end = canon_ir(module)
     changed = canon_start != canon_end
     if not c.diverged:
-        if (changed or c.stats["mutating_invocations"]) and not ret:
-            if (c.stats["mutating_invocations_flagged"] == 0 and c.stats["unflagged_mutations_unexplained"] == 0
+        if cfg["hook"] != "none":
+            c.stats["hook_cases"] += 1
+            if c.hook_reported_change and not c.stats["mutating_invocations"]:
+                c.stats["hook_only_change_cases"] += 1
+        if c.hook_reported_change and not ret:
+            c.violate("returned-false-but-post-walk-hook-changed-ir",
+                      f"rewrite_module returned False although post_walk_func ({cfg['hook']}) changed the IR and reported "
+                      f"True in {c.hook_reported_change} call(s) (canon changed={changed}, "
+                      f"{c.stats['mutating_invocations']} mutating pattern invocations)")
+        elif (changed or c.stats["mutating_invocations"]) and not ret:
+            if c.hook_untruthful and not c.stats["mutating_invocations"]:
+                c.stats["return_false_after_untruthful_hook"] += 1  # the hook changed IR and said False: not the walker
+            elif (c.stats["mutating_invocations_flagged"] == 0 and c.stats["unflagged_mutations_unexplained"] == 0
                     and c.stats["unflagged_mutations_explained_by_api_check"] > 0):
                 # direct consequence of an <api>:flag-not-set already reported by layer A: no flag was ever raised
                 c.stats["return_false_explained_by_unset_flag"] += 1
@@ -919,6 +1026,14 @@ def run_case(seed, size, want_text=False):
             else:
                 if canon_ir(module) != canon_end:
                     c.violate("fixpoint-missed", "re-applying the patterns after the walk changed canon(module)")
+                elif cfg["hook"] != "none":
+                    # fixpoint clause with the hook active: after the return, patterns AND hook change nothing
+                    r = base_hook(cfg["hook"])(c.region, PatternRewriterListener())
+                    c.stats["fixpoint_hook_reruns"] += 1
+                    if r or Snap(c.region).ident != i0.ident or canon_ir(module) != canon_end:
+                        c.violate("fixpoint-missed:post_walk_func",
+                                  f"after the recursive walk returned, re-running post_walk_func ({cfg['hook']}) still "
+                                  f"changes the IR (reported {r})")
             c.stats["fixpoint_checked_cases"] += 1
     pops = tuple(wl.pops)
     out = {
